@@ -107,7 +107,7 @@ fn main() {
         );
         let n_small = run.tier(150_000u64, 10_000_000u64);
         run.generate("random-styled-small", n_small, false, 0.15, |ctx, _idx, rng| {
-            let d = zoo::gen_styled(rng, &GenCfg::SMALL, None);
+            let d = if rng.chance(1, 10) { zoo::gen_dotted_rect(rng) } else { zoo::gen_styled(rng, &GenCfg::SMALL_DOTTED, None) };
             visit_as::<Rgb565>(ctx, &d);
         });
         let n_thick = run.tier(150_000u64, 20_000_000u64);
